@@ -253,8 +253,7 @@ theorem typedNormal_idem (T : MesgTable) (hw : T.wf = true) (fac : Nat → Field
   have hU : ∀ f ∈ m.fields.filter (fun f => !stored T f), stored T f = false := by
     intro f hfm; simpa using (List.mem_filter.mp hfm).2
   have hnd : nodup (T.slots.map (·.num)) = true := by
-    simp only [MesgTable.wf, Bool.and_eq_true] at hw
-    exact hw.1.2
+    exact wf_nodup T hw
   have hSF := normField_slotFields T hw fac hf o m.fields
   have hlook := lookup_filterMap T T.slots (normField T fac o m.fields) _ hnd hSF hU
   have hfields := typedNormal_fields T fac o m
